@@ -470,6 +470,8 @@ def generate_response(
         properties=properties,
         since=request_def.since,
         deprecated=request_def.deprecated,
+        # The response of a proposed request refers to proposed types.
+        proposed=request_def.proposed,
     )
 
     inner = []
